@@ -1,5 +1,6 @@
 """C09 - ensemble solvers return the best member and account for all work; the point generators behind them
-(gridpts / lattice bin centres / samplepts / randomly_bin / fillpts) enumerate the full product / stay in their ranges.
+(gridpts / lattice bin centres / samplepts / random_samples with a Distribution / randomly_bin / fillpts) enumerate the
+full product / stay in their ranges; the members are fresh copies of the nested solver, which no solve advances.
 
 Correspondence (bit-exact): real mystic.math.grid.gridpts / samplepts / randomly_bin, LatticeSolver._InitialPoints and
 the ensemble's reduction (__update_bestSolver / __update_state / _total_evals, fed with the members' REAL
@@ -27,6 +28,9 @@ THEOREMS = [
     "MysticVerif.C09.lattice_int_points_count",
     "MysticVerif.C09.samples_in_range",
     "MysticVerif.C09.samplepts_in_range",
+    "MysticVerif.C09.dist_samples_in_range",
+    "MysticVerif.C09.samplepts_dist_in_range",
+    "MysticVerif.C09.clip_in_range",
     "MysticVerif.C09.strided_prod",
     "MysticVerif.C09.shuffle_perm",
     "MysticVerif.C09.factors_spec",
@@ -40,9 +44,13 @@ THEOREMS = [
     "MysticVerif.C09.totals",
     "MysticVerif.C09.member_count",
     "MysticVerif.C09.member_inherits",
+    "MysticVerif.C09.init_members_fresh",
+    "MysticVerif.C09.members_fresh_copies",
+    "MysticVerif.C09.template_untouched",
+    "MysticVerif.C09.ensembles_independent",
 ]
 
-STREAMS = ["grid", "lattice", "samples", "rbin", "ensemble", "fill"]
+STREAMS = ["grid", "lattice", "samples", "dsamples", "rbin", "ensemble", "fill"]
 
 
 def vecf(x):
@@ -60,6 +68,10 @@ def exc_enum(e):
         return "zerodiv"
     if isinstance(e, TypeError):
         return "type"
+    if isinstance(e, RuntimeError):
+        return "runtime"
+    if isinstance(e, ValueError):
+        return "value"
     return "other:" + type(e).__name__
 
 
@@ -69,6 +81,13 @@ def pts_of(sx):
 
 def same_pts(a, b):
     return len(a) == len(b) and all(same_vec(p, q) for p, q in zip(a, b))
+
+
+def unsign_zero(pts):
+    """-0.0 -> 0.0: which zero numpy.clip returns when a drawn zero ties with a zero bound depends on numpy's kernel
+    (constant-bounds fast path `x < lo ? lo : x` for one coordinate, `max(x, lo)` = `x > lo ? x : lo` for bound
+    arrays); the two zeros are equal for every comparison the property and the resample loop make"""
+    return [[0.0 if v == 0.0 else v for v in p] for p in pts]
 
 
 def bump(hist, key, n=1):
@@ -407,6 +426,252 @@ def monitor_samples(c, obs, hist):
     return out
 
 
+# =================================================================== stream: random_samples / samplepts with a Distribution
+def gen_dist_item(rng, lo, hi, allow_script=True):
+    """one distribution, described relative to the box [lo, hi] it will be sampled into: narrow / wide / shifted to
+    one side / uniform over a larger interval / scripted values on and around the bounds.  Every family keeps a
+    noticeable mass strictly inside (except 'script-nointerior'), so the resample loop ends."""
+    w = hi - lo
+    if not (w > 0.0) or not math.isfinite(w):
+        w = 1.0
+    mid = lo + 0.5 * (hi - lo) if math.isfinite(hi - lo) else 0.0
+    k = rng.random()
+    if k < 0.16:
+        return ("normal", mid, 0.05 * w, "narrow")
+    if k < 0.34:
+        return ("normal", mid, rng.choice([1.0, 2.0, 5.0]) * w, "wide")
+    if k < 0.46:
+        return ("normal", lo - rng.choice([0.0, 0.3]) * w, w, "left")
+    if k < 0.58:
+        return ("normal", hi + rng.choice([0.0, 0.3]) * w, w, "right")
+    if k < 0.68:
+        return ("uniform", lo - rng.choice([0.5, 2.0]) * w, hi + rng.choice([0.5, 2.0]) * w, "both")
+    if k < 0.76 or not allow_script:
+        side = rng.random() < 0.5
+        return ("uniform", lo - (2.0 * w if side else 0.0), hi + (0.0 if side else 2.0 * w), "left" if side else "right")
+    t = rng.random()
+    return ("script", rng.randrange(2 ** 31), 0.0 if t < 0.04 else rng.choice([0.3, 0.6]), "nointerior" if t < 0.04 else "script")
+
+
+def script_pool(lbs, ubs):
+    """values on / next to / far from the bounds of every coordinate, signed zeros, infinities"""
+    out = []
+    for lo, hi in zip(lbs, ubs):
+        w = (hi - lo) if (hi > lo and math.isfinite(hi - lo)) else 1.0
+        out += [lo, hi, common.ulp_dn(lo), common.ulp_up(hi), lo - w, hi + w, lo - 1e6 * w, hi + 1e6 * w]
+        if lo == 0.0 or hi == 0.0:
+            out += [0.0, -0.0]
+    out += [math.inf, -math.inf]
+    return out
+
+
+def make_dist(item, lbs, ubs, log, which):
+    """a real mystic Distribution; every call of its `rvs` is recorded in `log` as (which, size, values)"""
+    from mystic.math import Distribution
+    if item[0] == "normal":
+        d = Distribution(np.random.normal, item[1], item[2])
+    elif item[0] == "uniform":
+        d = Distribution(np.random.uniform, item[1], item[2])
+    else:
+        srng = _random.Random(item[1]); pin = item[2]
+        pool = script_pool(lbs, ubs)
+        inner_pts = []
+        for lo, hi in zip(lbs, ubs):
+            if lo < hi:
+                inner_pts += [common.ulp_up(lo), common.ulp_dn(hi), lo + 0.5 * (hi - lo), lo + 0.25 * (hi - lo)]
+
+        def draw():
+            if inner_pts and srng.random() < pin:
+                # strictly inside EVERY coordinate's range only when the boxes overlap; otherwise inside some
+                if srng.random() < 0.5:
+                    i = srng.randrange(len(lbs))
+                    if lbs[i] < ubs[i]:
+                        return lbs[i] + (ubs[i] - lbs[i]) * srng.random()
+                return srng.choice(inner_pts)
+            return srng.choice(pool)
+        d = Distribution()
+
+        def script(size=None):
+            n = int(np.prod(size)) if size is not None else 1
+            return np.array([draw() for _ in range(n)], dtype=float).reshape(size if size is not None else ())
+        d.rvs = script
+    inner = d.rvs
+
+    def rvs(size=None):
+        v = np.array(inner(size), dtype=float)
+        log.append((which, size, v.copy()))
+        return v
+    d.rvs = rvs
+    return d
+
+
+def split_dist_log(log, mode, npts, dim):
+    """-> (init rows dim x npts, redraw calls) from the recorded calls"""
+    if mode == "single":
+        if not log:
+            return None, []
+        init = np.asarray(log[0][2], dtype=float).reshape(npts, dim).T.tolist()
+        rest = log[1:]
+    else:
+        if len(log) < dim:
+            return None, []
+        init = [np.asarray(l[2], dtype=float).reshape(npts).tolist() for l in log[:dim]]
+        rest = log[dim:]
+    return init, [np.asarray(l[2], dtype=float).ravel().tolist() for l in rest]
+
+
+def gen_dsamples(rng):
+    dim = rng.randint(1, 4)
+    npts = rng.choice([0, 1, 1, 2, 3, 4, 6, 10])
+    regime = rng.choice(["dyadic", "dyadic", "float", "wide"])
+    lo, hi = gen_box(rng, dim, regime, degenerate_ok=rng.random() < 0.15)
+    c = {"dim": dim, "npts": npts, "regime": regime, "lb": lo, "ub": hi, "np_seed": rng.randrange(2 ** 31)}
+    c["via"] = rng.choice(["random_samples", "random_samples", "samplepts", "samplepts", "buckshot"])
+    c["mode"] = "single" if (c["via"] == "buckshot" or rng.random() < 0.5) else "list"
+    if c["mode"] == "single" and dim > 1 and rng.random() < 0.75:
+        # one distribution serves every coordinate: mostly overlapping coordinate ranges (else the documented
+        # RuntimeError is the only possible outcome)
+        w0 = hi[0] - lo[0]
+        for i in range(1, dim):
+            lo[i] = lo[0] + rng.randint(-2, 2) * w0 / 8.0; hi[i] = hi[0] + rng.randint(-2, 2) * w0 / 8.0
+    f = 1.0
+    if rng.random() < 0.3:
+        f = c["norm"] = rng.choice([2.0, 0.5, -1.0])        # Distribution * factor (exact powers of two)
+    sc = lambda a, b: tuple(sorted((a / f, b / f)))
+    if c["mode"] == "single":
+        # one distribution for all coordinates: described relative to the hull of the coordinate ranges or to one of them
+        if rng.random() < 0.5:
+            i = rng.randrange(dim); a, b = lo[i], hi[i]
+        else:
+            a, b = min(lo), max(hi)
+        c["dists"] = [gen_dist_item(rng, *sc(a, b))]
+    else:
+        c["dists"] = [gen_dist_item(rng, *sc(a, b)) for a, b in zip(lo, hi)]
+    c["clip"] = c["via"] == "random_samples" and rng.random() < 0.25
+    if dim >= 3 and c["via"] != "buckshot" and rng.random() < 0.04:
+        c["ub"] = hi[:-1]; c["malformed"] = "short-ub"   # ValueError (shapes cannot be broadcast)
+    return c
+
+
+def _ncdf(x):
+    return 0.5 * (1.0 + math.erf(x / math.sqrt(2.0)))
+
+
+def mass_inside(item, f, lo, hi):
+    """probability that f * X lies strictly inside (lo, hi) for X ~ item (scripted: a lower bound)"""
+    if not (lo < hi):
+        return 0.0
+    if item[0] == "normal":
+        mu, sg = f * item[1], abs(f) * item[2]
+        return _ncdf((hi - mu) / sg) - _ncdf((lo - mu) / sg) if sg > 0 else (1.0 if lo < mu < hi else 0.0)
+    if item[0] == "uniform":
+        a, b = sorted((f * item[1], f * item[2]))
+        return max(0.0, min(b, hi) - max(a, lo)) / (b - a) if b > a else 0.0
+    return 0.0 if item[3] == "nointerior" else 0.03
+
+
+def servable(c):
+    """True: every coordinate has at least 2% of its distribution's mass strictly inside its range, so 999 redraw
+    rounds fail with probability < 1e-8: the documented RuntimeError would be a defect.  False: the RuntimeError is
+    the correct outcome.  None: in between (either outcome is accepted)."""
+    if c["npts"] == 0 or c.get("clip"):
+        return True
+    f = c.get("norm", 1.0)
+    ps = []
+    for i, (a, b) in enumerate(zip(c["lb"], c["ub"])):
+        it = c["dists"][0] if c["mode"] == "single" else c["dists"][i]
+        ps.append(mass_inside(it, f, a, b))
+    if all(p_ >= 0.02 for p_ in ps):
+        return True
+    if any(p_ < 1e-12 for p_ in ps):
+        return False
+    return None
+
+
+def impl_dsamples(c):
+    from mystic.math.grid import samplepts
+    from mystic.math.samples import random_samples
+    from mystic.ensemble import BuckshotSolver
+    log = []
+    np.random.seed(c["np_seed"])
+    f = c.get("norm", 1.0)
+    sl = [min(a / f, b / f) for a, b in zip(c["lb"], c["ub"])]; su = [max(a / f, b / f) for a, b in zip(c["lb"], c["ub"])]
+    ds = [make_dist(it, sl, su, log, i) for i, it in enumerate(c["dists"])]
+    if c.get("norm") is not None:
+        # Distribution.__mul__ builds a new Distribution around the same (recording) rvs: the log holds the raw values
+        ds = [d * c["norm"] for d in ds]
+    dist = ds[0] if c["mode"] == "single" else ds
+    extra = {}
+    try:
+        if c["via"] == "random_samples":
+            q = random_samples(list(c["lb"]), list(c["ub"]), c["npts"], dist, clip=c["clip"])
+            pts = np.asarray(q, dtype=float).tolist()        # dim x npts
+        elif c["via"] == "samplepts":
+            pts = samplepts(list(c["lb"]), list(c["ub"]), c["npts"], dist)
+        else:
+            s = BuckshotSolver(c["dim"], npts=c["npts"])
+            s.SetStrictRanges(list(c["lb"]), list(c["ub"]))
+            s.SetDistribution(dist)
+            pts = s._InitialPoints()
+            extra = {"npts_attr": int(s._npts), "nslots": len(s._allSolvers)}
+    except Exception as e:
+        return {"err": exc_enum(e), "msg": repr(e)[:120], "log": log}
+    return dict({"pts": [vecf(p) for p in pts], "log": log}, **extra)
+
+
+def line_dsamples(c, obs):
+    """the recorded draws (after the norm factor: what random_samples receives) are the model's oracle"""
+    f = c.get("norm")
+    log = [(w, sz, (v * f if f is not None else v)) for w, sz, v in obs["log"]]
+    init, calls = split_dist_log(log, c["mode"], c["npts"], c["dim"])
+    if init is None:
+        return None
+    return "C09 dsamples (lb %s) (ub %s) (npts %d) (clip %s) (T %s) (init (%s)) (calls (%s))" % (
+        fl(c["lb"]), fl(c["ub"]), c["npts"], "true" if c.get("clip") else "false",
+        "false" if c["via"] == "random_samples" else "true",
+        " ".join(fl(r) for r in init), " ".join(fl(r) for r in calls))
+
+
+def monitor_dsamples(c, obs, hist):
+    """sampled points stay within their ranges, whatever distribution the user supplies: npts points of dimension dim,
+    every coordinate in [lb_i, ub_i] (exact: only comparisons are involved)"""
+    out = []
+    if c.get("malformed"):
+        return out
+    ncalls = len(obs["log"]) - (1 if c["mode"] == "single" else c["dim"])
+    bump(hist, "dsamples:redraw-calls=%s" % ("0" if ncalls <= 0 else ("1-3" if ncalls <= 3 else ("4-20" if ncalls <= 20 else ">20"))))
+    if "err" in obs:
+        sv = servable(c)
+        if obs["err"] == "runtime" and sv is not True:
+            bump(hist, "dsamples:runtime-error-%s" % ("expected" if sv is False else "possible"))
+            return out
+        out.append(("dist-samples/raises/%s" % c["via"], "%s with a distribution raised %s for %r" % (c["via"], obs.get("msg"), c)))
+        return out
+    pts = obs["pts"]
+    if c["via"] == "random_samples":
+        pts = [list(col) for col in zip(*pts)] if pts and pts[0] else ([] if c["npts"] == 0 else pts)
+        if len(obs["pts"]) != c["dim"] or any(len(r) != c["npts"] for r in obs["pts"]):
+            out.append(("dist-samples/count/random_samples", "requested a %d x %d sample matrix, got rows of %r" % (c["dim"], c["npts"], [len(r) for r in obs["pts"]])))
+            return out
+    elif len(pts) != c["npts"] or any(len(p) != c["dim"] for p in pts):
+        out.append(("dist-samples/count/%s" % c["via"], "requested %d points of dimension %d, got %r" % (c["npts"], c["dim"], [len(p) for p in pts])))
+        return out
+    if "nslots" in obs and (obs["nslots"] != c["npts"] or obs["npts_attr"] != c["npts"]):
+        out.append(("buckshot-points/count", "BuckshotSolver npts=%d has %d slots" % (c["npts"], obs["nslots"])))
+    for j, p in enumerate(pts):
+        for i, v in enumerate(p):
+            lb = c["lb"][i]; ub = c["ub"][i]
+            if not (lb <= v <= ub):
+                side = "below" if v < lb else ("above" if v > ub else "nan")
+                out.append(("dist-samples/%s-range/%s" % (side, c["via"]),
+                            "%s(lb=%r, ub=%r, npts=%d, dist=%r%s): point %d coordinate %d = %r outside [%r, %r]" % (
+                                c["via"], c["lb"], c["ub"], c["npts"], c["dists"], " clip=True" if c.get("clip") else "", j, i, v, lb, ub)))
+                return out
+            if not c.get("clip") and (v == lb or v == ub):
+                bump(hist, "dsamples:returned-entry-on-a-bound")
+    return out
+
+
 # =================================================================== stream: randomly_bin
 PRIMES = [2, 3, 5, 7, 11, 13, 17, 19, 23, 29, 31, 37, 97, 101, 211, 997]
 
@@ -544,6 +809,26 @@ def gen_plateau_cost(rng, dim):
     return ("scalar", ("sum",) + tuple(terms))
 
 
+def pick_servable_item(rng, lo, hi):
+    """a single distribution with at least 2% of its mass strictly inside EVERY coordinate range (else None)"""
+    for _ in range(8):
+        if rng.random() < 0.5:
+            i = rng.randrange(len(lo)); a, b = lo[i], hi[i]
+        else:
+            a, b = min(lo), max(hi)
+        it = gen_dist_item(rng, a, b)
+        if it[3] != "nointerior" and all(mass_inside(it, 1.0, x, y) >= 0.02 for x, y in zip(lo, hi)):
+            return it
+    return None
+
+
+def second_spec(c):
+    """the configuration of the second ensemble built on the same nested instance"""
+    c2 = {k: v for k, v in c.items() if k not in ("nbins", "N", "npts", "rtol", "dist", "sdist", "transport", "reuse")}
+    c2.update(c["reuse"])
+    return c2
+
+
 def gen_ensemble(rng, tier):
     kind = rng.choice(["lattice", "lattice", "lattice", "buckshot", "buckshot", "sparsity"])
     dim = rng.randint(1, 3)
@@ -609,8 +894,32 @@ def gen_ensemble(rng, tier):
         c["transport"] = "pickle"
     if kind == "lattice" and rng.random() < 0.15:
         c["dist"] = rng.choice([0.01, 0.25, 2.0])       # normal noise added to the cell centres
-    if rng.random() < 0.2:
+    if kind == "buckshot" and c.get("ranges") and rng.random() < 0.4:
+        it = pick_servable_item(rng, c["ranges"][0], c["ranges"][1])
+        if it is not None:
+            c["sdist"] = it         # BuckshotSolver.SetDistribution / buckshot(dist=..): starting points from a distribution
+    if rng.random() < 0.3:
         c["instance"] = True       # a configured nested solver INSTANCE instead of a solver class
+        c["inst_monitors"] = rng.random() < 0.5
+        if rng.random() < 0.6:
+            # the same configured instance is handed to a SECOND ensemble afterwards (same or other kind)
+            k2 = rng.choice(["lattice", "buckshot", "buckshot", "sparsity"])
+            r = {"kind": k2, "map": rng.choice(["builtin", "fwd", "rev", "shuffle"]), "map_seed": rng.randrange(2 ** 31),
+                 "mode": rng.choice(["solve", "solve", "solve-step", "steps"]), "nsteps": rng.randint(1, 4)}
+            if k2 == "lattice":
+                nb = [rng.choice([1, 2, 2, 3]) for _ in range(dim)]
+                while np.prod(nb) > 6:
+                    nb[rng.randrange(dim)] = 1
+                r["nbins"] = nb
+            else:
+                r["npts"] = rng.choice([1, 2, 3, 4]) if k2 == "buckshot" else rng.choice([1, 2])
+                if k2 == "sparsity":
+                    r["rtol"] = rng.choice([None, 0.3])
+            if k2 == "buckshot" and c.get("ranges") and rng.random() < 0.3:
+                it = pick_servable_item(rng, c["ranges"][0], c["ranges"][1])
+                if it is not None:
+                    r["sdist"] = it
+            c["reuse"] = r
     if c["api"] == "wrapper":
         c["mode"] = "solve"
         c["ftol"] = rng.choice([1e-4, 1e-2, 1e-8]); c["gtol"] = rng.choice([10, 2, 3, None])
@@ -624,6 +933,12 @@ def gen_ensemble(rng, tier):
         # keep the Step loop short
         mi, mf = c["limits"]
         c["limits"] = (min(mi, 12) if mi is not None else (8 if tier == "quick" else 12), None if mf is None else min(mf, 60))
+    if c.get("reuse") and c["reuse"]["mode"] == "solve-step":
+        mi, mf = c["limits"]
+        if mi is None or mi > 12 or (mf is not None and mf > 60):
+            c["reuse"]["mode"] = "solve"
+    if c["api"] != "class":
+        c.pop("reuse", None)
     return c
 
 
@@ -636,6 +951,9 @@ class Tape:
         self.members = None   # the member solvers as the map saw them (last call)
         self.map_calls = 0
         self.order = []
+        self.iv = None        # the starting points as generated by `_InitialPoints` (before any member touches them)
+        self.created = None   # the member objects as `__init_allSolvers` created them (first map call; kept alive)
+        self.dist_log = []    # recorded calls of the ensemble's Distribution
 
 
 def make_map(c, tape):
@@ -651,6 +969,10 @@ def make_map(c, tape):
         elif c["map"] == "shuffle":
             mrng.shuffle(idx)
         tape.map_calls += 1
+        if tape.created is None:
+            tape.created = list(args[0])
+            if tape.iv is None and len(args) > 1 and all(x is not None for x in args[1]):
+                tape.iv = [vecf(x) for x in args[1]]
         res = [None] * n
         for i in idx:
             tape.cur = i
@@ -722,21 +1044,139 @@ def ensemble_view(s):
             "all_e": [None if v is None else float(np.asarray(v, dtype=float).ravel()[0]) for v in s._all_bestEnergy]}
 
 
+def snapshot(inst):
+    """the run state of a solver - everything a Solve/Step advances: counters, best, population, monitors (plus `id`,
+    compared with the model only)"""
+    def num(v):
+        if v is None:
+            return None
+        try:
+            return [float(t) for t in np.asarray(v, dtype=float).ravel()]
+        except Exception:
+            return repr(v)[:60]
+    fc = getattr(inst, "_fcalls", [0])
+    return {"evaluations": int(inst.evaluations), "generations": int(inst.generations), "fcalls": int(fc[0]),
+            "bestEnergy": num(inst.bestEnergy), "bestSolution": num(inst.bestSolution),
+            "population": [num(p_) for p_ in inst.population], "popEnergy": num(inst.popEnergy),
+            "trialSolution": num(inst.trialSolution),
+            "stepmon": len(inst._stepmon), "evalmon": len(inst._evalmon),
+            "stepmon_x": [num(x) for x in getattr(inst._stepmon, "_x", [])][:50],
+            "stepmon_y": num(getattr(inst._stepmon, "_y", [])[:50]),
+            "id": getattr(inst, "id", None)}
+
+
+def same_state(a, b):
+    if isinstance(a, float) and isinstance(b, float):
+        return same_float(a, b)
+    if isinstance(a, list) and isinstance(b, list):
+        return len(a) == len(b) and all(same_state(x, y) for x, y in zip(a, b))
+    return a == b
+
+
+def alias_pattern(objs):
+    """canonical numbering of object identities (first occurrence): [template, members...] -> [0, 1, 2, ...]"""
+    seen = {}; out = []
+    for o in objs:
+        out.append(seen.setdefault(id(o), len(seen)))
+    return out
+
+
 def run_ensemble(c):
-    """drive a real ensemble; returns observations: a list of states (one per observed moment) + the tape"""
+    """drive a real ensemble; returns observations: a list of states (one per observed moment) + the tape.
+    With a configured nested INSTANCE (`instance`) the instance is snapshotted before / after every solve, and with
+    `reuse` a second ensemble is built on the same instance afterwards (obs["second"], obs["_tape2"])."""
     import mystic.ensemble as ME
     from mystic.termination import state as tstate
     import trace as tr
     _random.seed(c["seed"]); np.random.seed(c["seed"])
     tape = Tape()
     cost, cons, pen = make_functions(c, tape)
-    the_map = make_map(c, tape)
     cls = nested_class(c["nested"])
     obs = {"states": [], "err": None}
     had_np = "NP" in cls.__dict__
     old_np = cls.__dict__.get("NP")
+
+    def the_dist(spec, tp):
+        if spec.get("dist"):
+            from mystic.math import Distribution
+            return Distribution(np.random.normal, 0.0, spec["dist"])
+        if spec.get("sdist"):
+            return make_dist(spec["sdist"], spec["ranges"][0], spec["ranges"][1], tp.dist_log, 0)
+        return None
+
+    def drive(spec, tp, ob, inst):
+        """class API: build the ensemble described by `spec`, run it, record the observations in `ob`"""
+        the_map = make_map(spec, tp)
+        if spec["kind"] == "lattice":
+            s = ME.LatticeSolver(spec["dim"], nbins=(spec["N"] if "N" in spec else tuple(spec["nbins"])))
+        elif spec["kind"] == "buckshot":
+            s = ME.BuckshotSolver(spec["dim"], npts=spec["npts"])
+        else:
+            s = ME.SparsitySolver(spec["dim"], npts=spec["npts"], rtol=spec.get("rtol"))
+        if inst is not None:
+            s.SetNestedSolver(inst)
+        elif spec.get("NP"):
+            s.SetNestedSolver(cls, NP=spec["NP"])
+        else:
+            s.SetNestedSolver(cls)
+        d = the_dist(spec, tp)
+        if d is not None:
+            s.SetDistribution(d)
+        if spec.get("ranges"):
+            lo, hi, tight, clip = spec["ranges"]
+            kw = {}
+            if tight is not None:
+                kw["tight"] = tight
+            if clip is not None:
+                kw["clip"] = clip
+            s.SetStrictRanges(list(lo), list(hi), **kw)
+        if cons is not None:
+            s.SetConstraints(cons)
+        if pen is not None:
+            s.SetPenalty(pen)
+        s.SetEvaluationLimits(*spec["limits"])
+        if spec.get("termination") is not None:
+            s.SetTermination(tr.make_termination(spec["termination"]))
+        if the_map is not None:
+            s.SetMapper(the_map)
+        ob["requested_term"] = tstate(s._termination)
+        ob["npts_attr"] = int(s._npts)
+        # the starting points exactly as the ensemble generates them
+        orig_ip = s._InitialPoints
+
+        def rec_ip():
+            pts = orig_ip()
+            tp.iv = [vecf(x) for x in pts]
+            return pts
+        s._InitialPoints = rec_ip
+
+        def observe(tag):
+            st = ensemble_view(s)
+            st["tag"] = tag
+            st["members"] = [member_view(m) for m in s._allSolvers]
+            st["n_cost"] = len(tp.cost)
+            st["per_member_cost"] = per_member_counts(tp, len(s._allSolvers))
+            ob["states"].append(st)
+        if spec["mode"] == "solve":
+            s.Solve(cost, disp=0)
+            observe("solve")
+        elif spec["mode"] == "solve-step":
+            s.Solve(cost, disp=0, step=True)
+            observe("solve-step")
+        else:
+            for k in range(spec["nsteps"]):
+                s.Step(cost, disp=0)
+                observe("step%d" % k)
+        ob["member_cfg"] = [member_cfg(m, tstate) for m in s._allSolvers]
+        ob["iv"] = tp.iv
+        ob["at"] = int(s.id) if s.id else 0
+        if tp.created is None:
+            tp.created = list(s._allSolvers)       # builtin map, in process: the created objects are the kept ones
+        return s
+
     try:
         if c["api"] == "wrapper":
+            the_map = make_map(c, tape)
             fn = getattr(ME, c["kind"])
             first = c["N"] if "N" in c else (tuple(c["nbins"]) if "nbins" in c else c["npts"])
             kw = dict(full_output=1, disp=0, solver=cls, ftol=c["ftol"], gtol=c["gtol"],
@@ -758,24 +1198,20 @@ def run_ensemble(c):
                 kw["map"] = the_map
             if c["kind"] == "sparsity" and c.get("rtol") is not None:
                 kw["rtol"] = c["rtol"]
-            if c.get("dist"):
-                from mystic.math import Distribution
-                kw["dist"] = Distribution(np.random.normal, 0.0, c["dist"])
+            d = the_dist(c, tape)
+            if d is not None:
+                kw["dist"] = d
             ret = fn(cost, c["dim"], first, **kw)
             obs["ret"] = {"x": vecf(ret[0]), "fval": float(np.asarray(ret[1], dtype=float).ravel()[0]), "iterations": int(ret[2]),
                           "fcalls": int(ret[3]), "warnflag": int(ret[4]), "all_fcalls": int(ret[5])}
             obs["n_cost"] = len(tape.cost)
+            obs["iv"] = tape.iv
             if tape.members is not None:
                 obs["members"] = [member_view(m) for m in tape.members]
                 obs["member_cfg"] = [member_cfg(m, tstate) for m in tape.members]
             return obs, tape
-        if c["kind"] == "lattice":
-            s = ME.LatticeSolver(c["dim"], nbins=(c["N"] if "N" in c else tuple(c["nbins"])))
-        elif c["kind"] == "buckshot":
-            s = ME.BuckshotSolver(c["dim"], npts=c["npts"])
-        else:
-            s = ME.SparsitySolver(c["dim"], npts=c["npts"], rtol=c.get("rtol"))
-        if c.get("instance") and c["api"] == "class":
+        inst = None
+        if c.get("instance"):
             # the user configures the nested solver himself (consistently with the ensemble); it is used as it is
             inst = cls(c["dim"], c["NP"]) if c.get("NP") else cls(c["dim"])
             if c.get("ranges"):
@@ -796,56 +1232,34 @@ def run_ensemble(c):
             else:
                 from mystic.termination import NormalizedChangeOverGeneration
                 inst.SetTermination(NormalizedChangeOverGeneration(1e-4))
-            if c["mode"] != "solve":
+            if c.get("inst_monitors"):
+                from mystic.monitors import Monitor
+                inst.SetEvaluationMonitor(Monitor())
+                inst.SetGenerationMonitor(Monitor())
+            if c["mode"] != "solve" or (c.get("reuse") and c["reuse"]["mode"] != "solve"):
                 # Step-mode ensembles never hand the objective to a configured instance (only `_solve` does, l.776-777):
                 # without this the members raise TypeError('NoneType' object is not callable) - a crash, not a C09 result
                 inst.SetObjective(cost)
-            s.SetNestedSolver(inst)
-        elif c.get("NP"):
-            s.SetNestedSolver(cls, NP=c["NP"])
-        else:
-            s.SetNestedSolver(cls)
-        if c.get("dist"):
-            from mystic.math import Distribution
-            s.SetDistribution(Distribution(np.random.normal, 0.0, c["dist"]))
-        if c.get("ranges"):
-            lo, hi, tight, clip = c["ranges"]
-            kw = {}
-            if tight is not None:
-                kw["tight"] = tight
-            if clip is not None:
-                kw["clip"] = clip
-            s.SetStrictRanges(list(lo), list(hi), **kw)
-        if cons is not None:
-            s.SetConstraints(cons)
-        if pen is not None:
-            s.SetPenalty(pen)
-        s.SetEvaluationLimits(*c["limits"])
-        if c.get("termination") is not None:
-            s.SetTermination(tr.make_termination(c["termination"]))
-        if the_map is not None:
-            s.SetMapper(the_map)
-        obs["requested_term"] = tstate(s._termination)
-        obs["npts_attr"] = int(s._npts)
-
-        def observe(tag):
-            st = ensemble_view(s)
-            st["tag"] = tag
-            st["members"] = [member_view(m) for m in s._allSolvers]
-            st["n_cost"] = len(tape.cost)
-            st["per_member_cost"] = per_member_counts(tape, len(s._allSolvers))
-            obs["states"].append(st)
-        if c["mode"] == "solve":
-            s.Solve(cost, disp=0)
-            observe("solve")
-        elif c["mode"] == "solve-step":
-            s.Solve(cost, disp=0, step=True)
-            observe("solve-step")
-        else:
-            for k in range(c["nsteps"]):
-                s.Step(cost, disp=0)
-                observe("step%d" % k)
-        obs["member_cfg"] = [member_cfg(m, tstate) for m in s._allSolvers]
+            obs["template"] = {"snaps": [snapshot(inst)]}
+        drive(c, tape, obs, inst)
+        if inst is not None:
+            obs["template"]["snaps"].append(snapshot(inst))
+            objs = [inst] + list(tape.created)
+            if c.get("reuse"):
+                c2 = second_spec(c)
+                tape2 = Tape()
+                _ACTIVE["tape"] = tape2
+                ob2 = {"states": [], "err": None}
+                obs["second"] = ob2; obs["_tape2"] = tape2
+                try:
+                    drive(c2, tape2, ob2, inst)
+                except Exception as e:
+                    import traceback
+                    ob2["err"] = "%s: %s" % (type(e).__name__, e)
+                    ob2["tb"] = traceback.format_exc()[-1500:]
+                obs["template"]["snaps"].append(snapshot(inst))
+                objs += list(tape2.created or [])
+            obs["template"]["alias"] = alias_pattern(objs)
         return obs, tape
     except Exception as e:
         import traceback
@@ -892,18 +1306,19 @@ def requested_count(c):
     return c["npts"]
 
 
-def monitor_ensemble(c, obs, tape, hist):
-    """the property on the real results (no model involved)"""
+def monitor_ensemble(c, obs, tape, hist, tag=""):
+    """the property on the real results (no model involved); `tag` marks the clauses of a second ensemble built on a
+    reused nested instance"""
     out = []
     if obs["err"]:
-        out.append(("ensemble/raises/%s/%s" % (c["kind"], c["nested"]), "ensemble run raised %s" % obs["err"]))
+        out.append(("ensemble/raises%s/%s/%s" % (tag, c["kind"], c["nested"]), "ensemble run raised %s" % obs["err"]))
         return out
     want_n = requested_count(c)
     tagged = c["map"] != "builtin"
     lo = hi = None
     if c.get("ranges"):
         lo, hi = c["ranges"][0], c["ranges"][1]
-    key = lambda clause: "ensemble/%s/%s/%s" % (clause, c["kind"], c["nested"])
+    key = lambda clause: "ensemble/%s%s/%s/%s" % (clause, tag, c["kind"], c["nested"])
 
     def check_members(members, rep_e, rep_x, rep_evals, total, n_cost, per_member, where):
         es = [m["e"] for m in members]
@@ -949,6 +1364,36 @@ def monitor_ensemble(c, obs, tape, hist):
                 out.append((key("all-evals"), "%s: _all_evals %r vs members %r" % (st["tag"], st["all_evals"], [m["evals"] for m in st["members"]])))
             if out:
                 break
+    # ---- starting points as the ensemble generates them (what `_InitialPoints` hands to the members)
+    iv = obs.get("iv")
+    if iv is not None:
+        if len(iv) != want_n or any(len(p_) != c["dim"] for p_ in iv):
+            out.append((key("starting-points-count"), "%d starting points of dimensions %r generated, %d members of dimension %d requested" % (
+                len(iv), sorted(set(len(p_) for p_ in iv)), want_n, c["dim"])))
+        else:
+            blo, bhi = (lo, hi) if lo is not None else ([-1000.0] * c["dim"], [1000.0] * c["dim"])
+            noisy = bool(c.get("dist")) and c["kind"] != "buckshot"
+            for i, p_ in enumerate(iv):
+                if any(not (a <= v <= b) for v, a, b in zip(p_, blo, bhi)):
+                    if noisy:
+                        # lattice / sparsity add the distribution's noise to the grid / space-filling points without
+                        # clipping (gridpts l.33-38, fillpts l.115-120); the member clips its start (checked below on
+                        # the first evaluated point): counted, not reported
+                        bump(hist, "ens:noisy-start-generated-outside-ranges")
+                        break
+                    out.append((key("start-generated-outside-ranges"), "member %d: generated starting point %r outside [%r, %r]%s" % (
+                        i, p_, blo, bhi, " (distribution %r)" % (c.get("sdist"),) if c.get("sdist") else "")))
+                    break
+            else:
+                bump(hist, "ens:generated-starts-inside-ranges")
+            if c["kind"] == "lattice" and "nbins" in c and not c.get("dist") and not out:
+                for i, p_ in enumerate(iv):
+                    r = i; idx = [0] * c["dim"]
+                    for d in range(c["dim"] - 1, -1, -1):
+                        idx[d] = r % c["nbins"][d]; r //= c["nbins"][d]
+                    if not all(cell_centre_ok(p_[d], blo[d], bhi[d], idx[d], c["nbins"][d], False) for d in range(c["dim"])):
+                        out.append((key("generated-start-not-cell-centre"), "member %d: generated starting point %r is not the centre of its cell %r of %r in [%r, %r]" % (i, p_, idx, c["nbins"], blo, bhi)))
+                        break
     # ---- starting points: the first point each member works on
     if tagged:
         nmem = want_n
@@ -1035,15 +1480,71 @@ def monitor_ensemble(c, obs, tape, hist):
     return out
 
 
+def snap_diff(a, b):
+    return ["%s: %r -> %r" % (k, a[k], b[k]) for k in a if k != "id" and not same_state(a[k], b[k])]
+
+
+def monitor_template(c, obs, hist):
+    """the configured nested solver INSTANCE handed to SetNestedSolver is a template: the members are distinct new
+    objects, and no solve changes the instance (counters, best, population, monitors, id)"""
+    out = []
+    t = obs.get("template")
+    if not t or len(t["snaps"]) < 2:
+        return out
+    key = lambda clause: "ensemble/%s/%s/%s" % (clause, c["kind"], c["nested"])
+    names = ["the first ensemble's %s" % c["mode"], "the second ensemble's %s" % (c.get("reuse") or {}).get("mode")]
+    for k in range(1, len(t["snaps"])):
+        d = snap_diff(t["snaps"][k - 1], t["snaps"][k])
+        if d:
+            out.append((key("nested-instance-changed-by-solve"), "the configured %s instance handed to SetNestedSolver was changed by %s: %s" % (
+                c["nested"], names[k - 1], "; ".join(d)[:900])))
+            break
+    al = t.get("alias")
+    if al is not None:
+        if al[0] in al[1:]:
+            out.append((key("member-is-the-nested-instance"), "member %d of the ensembles IS the configured nested solver object (not a copy): identities %r" % (al[1:].index(al[0]), al)))
+        elif len(set(al)) != len(al):
+            out.append((key("members-share-an-object"), "two members are the same object: identities %r" % (al,)))
+        else:
+            bump(hist, "ens:template-untouched-members-fresh")
+    return out
+
+
+def line_template(c, obs):
+    """model request: the template's counters before the first solve + per ensemble (at, n, members' REAL (evals, gens))"""
+    t = obs.get("template")
+    if not t or "alias" not in t or not obs.get("states"):
+        return None
+    ens = []
+    for ob in [obs] + ([obs["second"]] if obs.get("second") and obs["second"].get("states") else []):
+        ms = ob["states"][-1]["members"]
+        ens.append("(%d %d (%s))" % (ob.get("at", 0), len(ms), " ".join("(%d %d)" % (m["evals"], m["gens"]) for m in ms)))
+    s0 = t["snaps"][0]
+    return "C09 template (t (%d %d)) (ens (%s))" % (s0["evaluations"], s0["generations"], " ".join(ens))
+
+
+def line_start_dsamples(c, obs, tape):
+    """buckshot with a distribution: the generated starting points against the model of samplepts(lb, ub, npts, dist)"""
+    if not c.get("sdist") or c["kind"] != "buckshot" or obs.get("iv") is None or not tape.dist_log:
+        return None
+    init, calls = split_dist_log(tape.dist_log, "single", c["npts"], c["dim"])
+    if init is None:
+        return None
+    return "C09 dsamples (lb %s) (ub %s) (npts %d) (clip false) (T true) (init (%s)) (calls (%s))" % (
+        fl(c["ranges"][0]), fl(c["ranges"][1]), c["npts"], " ".join(fl(r) for r in init), " ".join(fl(r) for r in calls))
+
+
 # =================================================================== one case
 def pick_stream(rng, tier):
     k = rng.random()
-    if k < 0.20:
+    if k < 0.17:
         return "grid"
-    if k < 0.36:
+    if k < 0.31:
         return "lattice"
-    if k < 0.52:
+    if k < 0.43:
         return "samples"
+    if k < 0.57:
+        return "dsamples"
     if k < 0.72:
         return "rbin"
     if k < 0.97:
@@ -1056,7 +1557,8 @@ def run_case(seed, shard, k, tier, stream=None):
     rng = case_rng(PID, seed, shard, k)
     st = stream or pick_stream(rng, tier)
     hist = {}
-    rec = {"stream": st, "gen": {"seed": seed, "shard": shard, "k": k, "tier": tier, "stream": st}, "lines": [], "monitor": [], "hist": hist}
+    # "stream" is the FORCED stream (None when it was picked from the case's own PRNG): replay must consume the same draws
+    rec = {"stream": st, "gen": {"seed": seed, "shard": shard, "k": k, "tier": tier, "stream": stream, "picked": st}, "lines": [], "monitor": [], "hist": hist}
     if st == "grid":
         c = gen_grid(rng); obs = impl_grid(c)
         rec["lines"].append(("grid", line_grid(c)))
@@ -1076,6 +1578,19 @@ def run_case(seed, shard, k, tier, stream=None):
         rec["monitor"] = monitor_samples(c, obs, hist)
         bump(hist, "samples:%s:%s:%s" % (c["via"], c["regime"], c.get("malformed") or ("real-rng" if c.get("real_rng") else "injected")))
         rec["nontrivial"] = c["npts"] >= 1 and "pts" in obs
+    elif st == "dsamples":
+        c = gen_dsamples(rng); obs = impl_dsamples(c)
+        ln = line_dsamples(c, obs)
+        if ln is not None:
+            rec["lines"].append(("dsamples", ln))
+        rec["monitor"] = monitor_dsamples(c, obs, hist)
+        bump(hist, "dsamples:%s:%s:%s%s" % (c["via"], c["mode"], c.get("malformed") or ("clip" if c.get("clip") else "resample"), ":norm" if c.get("norm") is not None else ""))
+        for fam in sorted(set("%s-%s" % (it[0], it[3]) for it in c["dists"])):
+            bump(hist, "dsamples:dist=%s" % fam)
+        nred = len(obs["log"]) - (1 if c["mode"] == "single" else c["dim"])
+        rec["nontrivial"] = c["npts"] >= 1 and "pts" in obs and nred >= 1
+        obs = {k2: v for k2, v in obs.items() if k2 != "log"}
+        obs["ncalls"] = nred
     elif st == "rbin":
         c = gen_rbin(rng); obs = impl_rbin(c, rng)
         rec["lines"].append(("rbin", line_rbin(c, obs)))
@@ -1089,7 +1604,9 @@ def run_case(seed, shard, k, tier, stream=None):
         rec["nontrivial"] = len(obs["keys"]) >= 3
     elif st == "ensemble":
         c = gen_ensemble(rng, tier); obs, tape = run_ensemble(c)
+        tape2 = obs.pop("_tape2", None)
         rec["monitor"] = monitor_ensemble(c, obs, tape, hist)
+        rec["monitor"] += monitor_template(c, obs, hist)
         if c["api"] == "wrapper":
             if obs.get("members"):
                 rec["lines"].append(("best:return", line_best(obs["members"])))
@@ -1097,9 +1614,25 @@ def run_case(seed, shard, k, tier, stream=None):
             for s in obs["states"]:
                 if all(m["e"] is not None for m in s["members"]):
                     rec["lines"].append(("best:" + s["tag"], line_best(s["members"])))
+        ln = line_start_dsamples(c, obs, tape)
+        if ln is not None:
+            rec["lines"].append(("start", ln)); bump(hist, "ens:buckshot-starts-from-distribution")
+        if obs.get("second") is not None:
+            c2 = second_spec(c); ob2 = obs["second"]
+            rec["monitor"] += monitor_ensemble(c2, ob2, tape2, hist, tag="@reuse")
+            for s in ob2["states"]:
+                if all(m["e"] is not None for m in s["members"]):
+                    rec["lines"].append(("best2:" + s["tag"], line_best(s["members"])))
+            ln = line_start_dsamples(c2, ob2, tape2)
+            if ln is not None:
+                rec["lines"].append(("start2", ln))
+            bump(hist, "ens:second-ensemble:%s->%s:%s" % (c["kind"], c2["kind"], c2["mode"]))
+        ln = line_template(c, obs)
+        if ln is not None:
+            rec["lines"].append(("template", ln))
         bump(hist, "ens:%s:%s:%s:%s:map=%s" % (c["kind"], c["nested"], c["api"], c["mode"], c["map"]))
-        for f in ("transport", "dist", "instance"):
-            if c.get(f) and not (f == "instance" and c["api"] != "class"):
+        for f in ("transport", "dist", "sdist", "instance", "reuse"):
+            if c.get(f) and not (f in ("instance", "reuse") and c["api"] != "class"):
                 bump(hist, "ens:with-" + f)
         for f in ("ranges", "constraints", "penalty"):
             if c.get(f) is not None:
@@ -1129,13 +1662,15 @@ def compare(rec, label, line, rep):
     r = parse_reply(rep)
     if r[0] == "bad-op":
         return ["driver answered bad-op"]
-    if st in ("grid", "lattice", "samples"):
+    if st in ("grid", "lattice", "samples", "dsamples"):
         if "err" in obs:
             return [] if (r[0] == "err" and r[1] == obs["err"]) else ["impl raised %s, model replied %r" % (obs["err"], rep[:80])]
         if r[0] != "ok":
             return ["impl returned %d points, model replied %r" % (len(obs["pts"]), rep)]
         mp = pts_of(r[1]["pts"])
         d = []
+        if st == "dsamples":
+            mp = unsign_zero(mp); obs = dict(obs, pts=unsign_zero(obs["pts"]))
         if int(r[1]["n"]) != len(obs["pts"]):
             d.append("count model=%s impl=%d" % (r[1]["n"], len(obs["pts"])))
         elif not same_pts(mp, obs["pts"]):
@@ -1143,6 +1678,8 @@ def compare(rec, label, line, rep):
             d.append("points differ at %r: model %r impl %r" % (bad, [mp[i] for i in bad], [obs["pts"][i] for i in bad]))
         if st == "lattice" and "N" in c and int(r[1]["draws"]) != len(obs["keys"]):
             d.append("sort-key draws model=%s impl=%d" % (r[1]["draws"], len(obs["keys"])))
+        if st == "dsamples" and int(r[1]["calls"]) != obs["ncalls"]:
+            d.append("redraw calls of the distribution model=%s impl=%d" % (r[1]["calls"], obs["ncalls"]))
         return d
     if st == "rbin":
         if "err" in obs:
@@ -1156,8 +1693,37 @@ def compare(rec, label, line, rep):
         if int(r[1]["draws"]) != len(obs["keys"]):
             d.append("draws model=%s impl=%d" % (r[1]["draws"], len(obs["keys"])))
         return d
+    if st == "ensemble" and label in ("start", "start2"):
+        ob = obs if label == "start" else obs["second"]
+        if r[0] != "ok":
+            return ["the ensemble generated %d starting points, model replied %r" % (len(ob["iv"]), rep[:120])]
+        mp = unsign_zero(pts_of(r[1]["pts"]))
+        if not same_pts(mp, unsign_zero(ob["iv"])):
+            return ["starting points from the distribution differ: model %r impl %r" % (mp[:4], ob["iv"][:4])]
+        return []
+    if st == "ensemble" and label == "template":
+        if r[0] != "ok":
+            return ["model replied %r" % rep]
+        kv = r[1]; d = []
+        t = obs["template"]
+        last = t["snaps"][-1]
+        want_t = [last["evaluations"], last["generations"], -1 if last["id"] is None else int(last["id"])]
+        if [int(v) for v in kv["tmpl"]] != want_t:
+            d.append("nested instance after the solves (evaluations, generations, id): model %r impl %r" % ([int(v) for v in kv["tmpl"]], want_t))
+        flat = [0] + [int(a) for grp in kv["members"] for a in grp]
+        if flat != t["alias"]:
+            d.append("object identities [instance, members...]: model %r impl %r" % (flat, t["alias"]))
+        obl = [obs] + ([obs["second"]] if obs.get("second") and obs["second"].get("states") else [])
+        for grp, ob in zip(kv["states"], obl):
+            ms = ob["states"][-1]["members"]
+            got = [[m["evals"], m["gens"], m["id"]] for m in ms]
+            if [[int(v) for v in st_] for st_ in grp] != got:
+                d.append("member states (evaluations, generations, id): model %r impl %r" % (grp, got))
+        return d
     if st == "ensemble":
-        if label == "best:return":
+        if label.startswith("best2:"):
+            rep_view = [s for s in obs["second"]["states"] if "best2:" + s["tag"] == label][0]
+        elif label == "best:return":
             ret = obs["ret"]
             rep_view = {"e": ret["fval"], "x": ret["x"], "evals": ret["fcalls"], "gens": ret["iterations"], "best_id": None,
                         "total": ret["all_fcalls"], "iters": None, "all_evals": None, "n": len(obs["members"])}
@@ -1274,20 +1840,32 @@ def main(tier, seed):
     rule = ("cases: gridpts on 0-4 bins of 0-5 int/dyadic/float values (incl. empty q and empty bins); LatticeSolver._InitialPoints for "
             "tuple / integer nbins, strict / default ranges, dyadic / float / wide boxes (random.random sort keys recorded, ties injected); "
             "samplepts / BuckshotSolver._InitialPoints with the numpy.random.rand matrix injected (u in {0, 1-2^-53, ...}) or recorded; "
+            "random_samples / samplepts / BuckshotSolver.SetDistribution with a user-supplied Distribution (one for all coordinates or one per "
+            "coordinate; normal narrow / wide / shifted to either side, uniform over a larger interval on one or both sides, scripted values on, "
+            "one ulp beside and far from the bounds, signed zeros, infinities, no interior mass; Distribution*factor; clip on/off; every call of the "
+            "distribution recorded and replayed by the model of the resample loop); "
             "randomly_bin over N in 0..6000, ndim None/0/1..7, ones, exact; real Lattice/Buckshot/Sparsity solves (class API and "
             "lattice()/buckshot()/sparsity() wrappers) with nested NM/Powell/DE/DE2, serial/reversed/shuffled maps, Solve / Solve(step=True) / "
-            "manual Step loops, ranges (tight/clip), DSL constraints, penalties, limits, terminations, plateau costs (exact energy ties); "
+            "manual Step loops, ranges (tight/clip), DSL constraints, penalties, limits, terminations, plateau costs (exact energy ties), "
+            "buckshot starting points from a Distribution, a configured nested solver INSTANCE (with / without its own monitors) snapshotted "
+            "around every solve and handed to a SECOND ensemble of the same or another kind (all clauses checked on both; object identities and "
+            "the instance's counters compared with the template model); "
             "fillpts / SparsitySolver._InitialPoints (monitor only). non-trivial = grid with >= 2 non-empty bins and >= 4 points; "
-            ">= 2 lattice points; >= 1 sample point; randomly_bin with >= 3 sort keys; ensemble with >= 2 members that evaluated beyond their start")
+            ">= 2 lattice points; >= 1 sample point; a distribution sample with >= 1 redraw call; randomly_bin with >= 3 sort keys; "
+            "ensemble with >= 2 members that evaluated beyond their start")
     tb = ["Lean 4.33 kernel; axioms per theorem listed under coverage.theorems",
           "hand-written model Model/Ensemble.lean tied to grid.py / samples.py / ensemble.py / abstract_ensemble_solver.py by this bit-exact differential run only",
           "the nested solvers themselves are NOT modelled here (C01-C05, C08): the members' real (bestEnergy, bestSolution, evaluations, generations) are inputs of the bookkeeping model",
           "member inheritance of bounds/constraints/penalty/limits/termination and 'total = number of real cost calls' are checked on the implementation by the monitor (copy.deepcopy and the map are runtime)",
+          "object identity of the members / 'the nested instance is a template' is proved on a store model (Model/Ensemble.lean, section Template) whose allocation step stands for copy.deepcopy; that deepcopy returns an independent object is observed on every run (identities, snapshot of the instance around each solve), not proved",
           "fillpts is an optimisation run: only count and range membership are checked (monitor)"]
     assumptions = ["maps are in-process and order-preserving in their RESULT (any evaluation order); a pickling / process-pool map is not exercised",
                    "costs, constraints and penalties are deterministic DSL closures (deep copy keeps the same function object)",
                    "IEEE binary64 + - * / and comparisons agree between Lean Float and CPython / numpy",
-                   "samples within [lb, ub]: the upper end is a field statement; in general floats an excess by rounding is counted, not reported (DESIGN 3)"]
+                   "samples within [lb, ub]: the upper end is a field statement; in general floats an excess by rounding is counted, not reported (DESIGN 3); "
+                   "with a user-supplied distribution the statement involves comparisons only and is checked exactly",
+                   "distributions never return NaN (numpy.clip propagates NaN; the model's clip does not)",
+                   "a RuntimeError('bounds could not be applied') of random_samples is accepted only when some coordinate has less than 2% of its distribution's mass strictly inside its range"]
     return framework.finish(PID, tier, seed, t0, proof, run, rule, tb, assumptions, search_more=search_more)
 
 
